@@ -163,9 +163,16 @@ K_OWNED = [
     ("owned_new_true", "OwnedLazyValue::new(\"true\") is Boolean"), ("owned_new_false", "OwnedLazyValue::new(\"false\") is Boolean"), ("owned_new_null", "OwnedLazyValue::new(\"null\") is Null"),
     ("owned_from_lv_true", "OwnedLazyValue::from(LazyValue \"true\") is Boolean"), ("owned_from_lv_false", "OwnedLazyValue::from(LazyValue \"false\") is Boolean"), ("owned_from_lv_null", "OwnedLazyValue::from(LazyValue \"null\") is Null"),
 ]]
+K_OWNED += [
+    K("owned_view_deref_total", "as_array / as_object on a still-raw container: the LazyArray / LazyObject view can be dereferenced (no unreachable!), against the contract of LazyRaw::load (kani::stub)",
+      ["lazyvalue::owned::<LazyArray as Deref>::deref", "lazyvalue::owned::<LazyObject as Deref>::deref", "lazyvalue::owned::OwnedLazyValue::as_array", "lazyvalue::owned::OwnedLazyValue::as_object"]),
+    K("owned_clone_keeps_raw", "Clone for LazyPacked::Raw, cache empty or loaded: the clone is still raw with the same text and does not share the original's cache allocation",
+      ["lazyvalue::owned::LazyRaw::clone_lazyraw", "lazyvalue::owned::<LazyPacked as Clone>::clone"]),
+]
 K_CACHE = [
-    K("cache_parse_from_all_outcomes", "Inner::parse_from/clone/drop under every CAS outcome (success, lost race to a published value, spurious weak failure) and decoder outcome: returned reference valid and equal to the published decoding, cache monotone, loser released with its real layout, counts balanced",
-      ["lazyvalue::value::Inner::parse_from", "lazyvalue::value::<Inner as Clone>::clone", "lazyvalue::value::<Inner as Drop>::drop"], timeout=600),
+    K("cache_parse_from_all_outcomes", "Inner::parse_from/clone/drop under every CAS outcome (success, lost race to a published value, spurious weak failure) and decoder outcome: returned reference valid and equal to the published decoding, cache monotone, loser released with its real layout, counts balanced, and (CBMC --memory-leak-check) every decoding allocated on any path is freed by the time the value and its clone are dropped",
+      ["lazyvalue::value::Inner::parse_from", "lazyvalue::value::<Inner as Clone>::clone", "lazyvalue::value::<Inner as Drop>::drop"], timeout=600,
+      flags=["--cbmc-args", "--memory-leak-check"]),
 ]
 K_READER = [
     K("reader_read_contract", "impl Reader for Read meets the T1 contract (remain/peek/peek_n/next/next_n/eat/backward/set_index/at/slice_unchecked/index), all indices, slice length <= 8",
